@@ -179,6 +179,13 @@ func (m *MonC20) Probe(idx int) {
 		if _, ok := s.Assets[pk.Denom]; !ok {
 			continue
 		}
+		if v := s.Vals[pk.Val]; v == nil || !v.HasInfo {
+			// the delegation record outlived its validator's share record: nothing can be reported for it
+			rep.Eval("C20.AllianceDelegation")
+			_, err := m.qs.AllianceDelegation(ctx, &types.QueryAllianceDelegationRequest{DelegatorAddr: pk.Del, ValidatorAddr: pk.Val, Denom: pk.Denom})
+			m.fail(idx, "C20.AllianceDelegation", "delegation record (%s,%s,%s) exists but its validator's share record is gone; AllianceDelegation returns error %v", w.Name(pk.Del), w.Name(pk.Val), pk.Denom, err)
+			return
+		}
 		bal := expectedBalance(s, pk)
 		// the 18-digit balance agrees with the exact-rational one up to the arithmetic's resolution
 		exact := s.Reported(pk)
